@@ -15,6 +15,7 @@ using namespace tulz;
 namespace {
 
 struct Cover {
+    uint64_t movedBeforeUse = 0, clampHistories = 0, clampCorrections = 0;
     uint64_t histories = 0, ops = 0, changed = 0, unchanged = 0, calls = 0, subs = 0, unsubs = 0, nontrivialCases = 0, eqEqualButDifferent = 0;
     std::map<std::string, uint64_t> opCount, typeCount;
     std::vector<uint64_t> fps;
@@ -273,6 +274,11 @@ struct Runner {
             log(eq.eps > 1 ? "eps2.5" : "eps0.5");
         }
         else obs.reset(new Obs(model));
+        // An Observable handed around before anybody subscribed (returned from a factory, stored in a container):
+        // value and equality travel with it.
+        unsigned mv = (unsigned) rng.below(10);
+        if (mv < 2) { log("move-constructed"); Obs tmp(std::move(*obs)); obs.reset(new Obs(std::move(tmp))); ++C.movedBeforeUse; }
+        else if (mv == 2) { log("move-assigned"); std::unique_ptr<Obs> other; if constexpr (std::is_same_v<Eq, Tol>) other.reset(new Obs(randomValue(), Tol{7.0})); else other.reset(new Obs(randomValue())); *other = std::move(*obs); obs = std::move(other); ++C.movedBeforeUse; }
         log("init" + show(model));
         for (int st = 0; st < steps && !gCaseFailed; ++st) {
             rt::crumb("observable step %d: %s", st, gHist.size() > 170 ? gHist.c_str() + gHist.size() - 170 : gHist.c_str());
@@ -301,6 +307,47 @@ void runCase(uint64_t seed, int steps, const char *name) {
     if (!gCaseFailed) delete r;
 }
 
+
+// A subscriber that corrects the value from inside its callback (clamping) plus recorders subscribed after it.
+// Whatever the nesting of notifications, when the operation has returned value() is the clamped value and every
+// recorder holds it ("a subscriber that records notifications therefore always holds the current value()").
+void runClampCase(uint64_t seed, int steps) {
+    rt::Rng rng(seed);
+    gHist = "clamp-history: ";
+    Observable<int> level{0};
+    const int limit = (int) rng.range(5, 15);
+    int corrections = 0;
+    auto clampSub = level.subscribe([&](const int &v) { if (v > limit) { ++corrections; level = limit; } });
+    struct Rec { int last = 0; int calls = 0; };
+    Rec recs[3];
+    std::vector<decltype(level.subscribe([](const int &) {}))> handles;
+    int nRec = (int) rng.range(1, 3);
+    for (int i = 0; i < nRec; ++i) handles.push_back(level.subscribe([&recs, i](const int &v) { recs[i].last = v; ++recs[i].calls; }));
+    int model = 0;
+    for (int st = 0; st < steps && !gCaseFailed; ++st) {
+        int before = model;
+        unsigned k = (unsigned) rng.below(5);
+        int x = (int) rng.range(-10, 30);
+        const char *site;
+        if (k == 0) { site = "clamp-assign"; gHist += "=" + std::to_string(x) + " "; level = x; model = x; }
+        else if (k == 1) { site = "clamp-+="; int d = (int) rng.range(-8, 12); gHist += "+=" + std::to_string(d) + " "; level += d; model += d; }
+        else if (k == 2) { site = "clamp-++"; gHist += "++ "; ++level; ++model; }
+        else if (k == 3) { site = "clamp---"; gHist += "-- "; level--; --model; }
+        else { site = "clamp-apply"; int d = (int) rng.range(0, 9); gHist += "apply(+" + std::to_string(d) + ") "; level.apply([d](int &v) { v += d; }); model += d; }
+        if (model > limit) model = limit;
+        ++C.ops;
+        if (level.value() != model) return fail("wrong-value", site, "value() = " + std::to_string(level.value()) + " after an operation whose clamped result is " + std::to_string(model));
+        bool notified = model != before || k == 2 || k == 3;
+        for (int i = 0; i < nRec && notified; ++i)
+            if (recs[i].calls && recs[i].last != level.value())
+                return fail("recorder-out-of-date", site, "recorder " + std::to_string(i) + " (subscribed after a correcting subscriber) holds " + std::to_string(recs[i].last) + " but value() is " + std::to_string(level.value()));
+    }
+    ++C.clampHistories;
+    C.clampCorrections += (uint64_t) corrections;
+    ++C.histories;
+    ++C.typeCount["int with a re-entrant clamping subscriber"];
+}
+
 } // namespace
 
 int main(int argc, char **argv) {
@@ -313,6 +360,7 @@ int main(int argc, char **argv) {
         gCaseFailed = false;
         int steps = (int) (rng.chance(250) ? rng.range(1, 10) : rng.range(10, maxSteps));
         uint64_t s = rng.next();
+        if (rng.chance(120)) { runClampCase(s, steps); continue; }
         switch (rng.below(6)) {
             case 0: runCase<int, std::equal_to<int>, true>(s, steps, "int"); break;
             case 1: runCase<long, std::equal_to<long>, true>(s, steps, "long"); break;
@@ -325,7 +373,7 @@ int main(int argc, char **argv) {
     rt::dumpFingerprints(C.fps);
     rt::finish(rt::Json().kv("engine", "h_observable").kv("histories", C.histories).kv("ops", C.ops).kv("changingOps", C.changed)
                    .kv("nonChangingOps", C.unchanged).kv("subscriberCalls", C.calls).kv("subscribes", C.subs).kv("unsubscribes", C.unsubs)
-                   .kv("eqEqualButDifferentAssignments", C.eqEqualButDifferent).kv("nontrivialCases", C.nontrivialCases)
+                   .kv("eqEqualButDifferentAssignments", C.eqEqualButDifferent).kv("observablesMovedBeforeUse", C.movedBeforeUse).kv("reentrantClampHistories", C.clampHistories).kv("reentrantCorrections", C.clampCorrections).kv("nontrivialCases", C.nontrivialCases)
                    .raw("opCount", rt::jsonCounts(C.opCount)).raw("types", rt::jsonCounts(C.typeCount)).raw("samples", rt::jsonArray(C.samples, false)));
     return 0;
 }
